@@ -21,6 +21,7 @@ type chState struct {
 	ids      map[ssa.Value]string
 	lastSent string // "" nothing sent yet
 	sent     bool
+	pend     int // transient, between a call and the naming of its result: 1 the callee returns the last value it sent, 2 it returns the zero value having sent nothing
 }
 
 func (s chState) key() string {
@@ -51,6 +52,8 @@ type chOutcome struct {
 	closed   bool   // channel closed when the function returns (explicitly or by its own defer)
 	sent     bool   // something was sent
 	lastSent string // "param:<i>" when the last value sent is the callee's i-th parameter, "" none, otherwise opaque
+	retLast  bool   // the (single, struct) value the function returns is the last value it sent
+	retZero  bool   // nothing was sent and the value returned is the zero value (nothing was ever assigned)
 }
 
 type chChecker struct {
@@ -395,6 +398,29 @@ func (c *chChecker) analyse(fn *ssa.Function, root ssa.Value, nilness int, top b
 				case *ssa.Select:
 					for _, st := range x.States {
 						if isCh(st.Chan) && st.Dir == types.SendOnly {
+							// the send must not have a way round it: the only other case allowed is a receive from a
+							// stop channel (chan struct{}) handed in by the caller
+							if !x.Blocking {
+								report("send", ins, "the send on the result channel is in a select with a default case: the result is dropped when the receiver is not ready at that instant")
+							}
+							for _, o := range x.States {
+								if o == st {
+									continue
+								}
+								okStop := false
+								if o.Dir == types.RecvOnly {
+									if ct, isC := o.Chan.Type().Underlying().(*types.Chan); isC {
+										if stt, isS := ct.Elem().Underlying().(*types.Struct); isS && stt.NumFields() == 0 {
+											if _, isP := o.Chan.(*ssa.Parameter); isP {
+												okStop = true
+											}
+										}
+									}
+								}
+								if !okStop {
+									report("send", ins, "the send on the result channel is in a select with another case that is not the caller's stop channel (a timer, another channel): a result that was computed can be dropped when the receiver is slow, so what is returned need not have been delivered")
+								}
+							}
 							if s.closed {
 								report("send", ins, "send after close")
 							}
@@ -442,6 +468,10 @@ func (c *chChecker) analyse(fn *ssa.Function, root ssa.Value, nilness int, top b
 									s2.sent = true
 									if trackRes {
 										s2.lastSent = "callee" + site
+										if o.retLast {
+											// `return s.forward(results, stop)`: the callee hands back the last value it sent
+											s2.pend = 1
+										}
 										var pi int
 										if n, _ := fmt.Sscanf(o.lastSent, "param:%d", &pi); n == 1 {
 											args := x.Call.Args
@@ -454,6 +484,9 @@ func (c *chChecker) analyse(fn *ssa.Function, root ssa.Value, nilness int, top b
 										}
 									}
 								}
+								if !o.sent && o.retZero {
+									s2.pend = 2
+								}
 								outs = append(outs, s2)
 							}
 						}
@@ -461,7 +494,16 @@ func (c *chChecker) analyse(fn *ssa.Function, root ssa.Value, nilness int, top b
 					if trackRes && trackable(x.Type()) {
 						for i := range outs {
 							fresh(&outs[i], x, "C"+site)
+							switch outs[i].pend {
+							case 1:
+								outs[i].lastSent = "C" + site
+							case 2:
+								outs[i].ids[x] = "zero:" + x.Name()
+							}
 						}
+					}
+					for i := range outs {
+						outs[i].pend = 0
 					}
 				case *ssa.UnOp:
 					if trackRes && x.Op == token.MUL && trackable(x.Type()) {
@@ -521,6 +563,15 @@ func (c *chChecker) analyse(fn *ssa.Function, root ssa.Value, nilness int, top b
 						o.lastSent = s.lastSent
 					} else if s.sent {
 						o.lastSent = "opaque"
+					}
+					if trackRes && len(x.Results) == 1 && trackable(x.Results[0].Type()) {
+						rid := idOf(&s, x.Results[0])
+						if s.sent && rid == s.lastSent && rid != "stale" {
+							o.retLast = true
+						}
+						if !s.sent && (strings.HasPrefix(rid, "zero:") || strings.HasPrefix(rid, "const:")) {
+							o.retZero = true
+						}
 					}
 					outSet[o] = true
 					if top && s.nilness != 1 {
